@@ -698,6 +698,8 @@ pub fn shape_corpus() -> Vec<(String, PDU)> {
         ("ack-eof", Box::new(|_| (PDUPayload::Directive(Operations::Ack(PositiveAcknowledgePDU { directive: PDUDirective::EoF, directive_subtype_code: ACKSubDirective::Other, condition: Condition::NoError, transaction_status: TransactionStatus::Active })), SegmentedData::NotPresent))),
         ("ack-finished", Box::new(|_| (PDUPayload::Directive(Operations::Ack(PositiveAcknowledgePDU { directive: PDUDirective::Finished, directive_subtype_code: ACKSubDirective::Finished, condition: Condition::CancelReceived, transaction_status: TransactionStatus::Terminated })), SegmentedData::NotPresent))),
         ("metadata-plain", Box::new(|_| (PDUPayload::Directive(Operations::Metadata(MetadataPDU { closure_requested: true, checksum_type: ChecksumType::Modular, file_size: 1000, source_filename: "a/in.dat".into(), destination_filename: "b/out.dat".into(), options: vec![] })), SegmentedData::NotPresent))),
+        // names at the 255-byte limit of an LV field: one mutated byte must not push a value past it
+        ("metadata-long-names", Box::new(|_| (PDUPayload::Directive(Operations::Metadata(MetadataPDU { closure_requested: false, checksum_type: ChecksumType::Modular, file_size: 7, source_filename: "s".repeat(255).into(), destination_filename: "d".repeat(254).into(), options: vec![] })), SegmentedData::NotPresent))),
         ("metadata-options", Box::new(|_| (PDUPayload::Directive(Operations::Metadata(MetadataPDU { closure_requested: false, checksum_type: ChecksumType::Null, file_size: 3, source_filename: "s".into(), destination_filename: "".into(), options: vec![
             MetadataTLV::FileStoreRequest(fs_request(2, (3, 4), 0)),
             MetadataTLV::FileStoreResponse(fs_response(fs_statuses()[12], (2, 2, 2), 0)),
